@@ -343,7 +343,7 @@ pub fn run(cfg: &Cfg, rep: &mut Rep) {
     }
     // random
     let mut r = Rng::new(cfg.seed, 0x0600 + sh as u64);
-    let nrand = cfg.budget(300_000);
+    let nrand = cfg.budget(3_000_000);
     let y = |yy: i64| crate::model::cal::days_from_1900(yy, 1, 1) as i128 * NS_D;
     for k in 0..nrand {
         let u = match r.below(10) {
